@@ -96,6 +96,14 @@ class Built:
         self.chart = self.make_chart(events, store)
         return self
 
+    def chart_for(self, output, events=True, store=False):
+        """A second chart built from the same node classes with another output node."""
+        st = setup_engine()
+        dag = st['build_dag'](input_node=getattr(self.mod, self.prog['input']), output_node=getattr(self.mod, output))
+        return st['PipelineChart'](model_name='rv2', entrypoint=dag,
+                                   event_managers=[rt.RecordingEvents] if events else [],
+                                   artifact_store=st['store_cls'] if store else None)
+
     def close(self):
         materialize.unload(self.mod)
 
@@ -138,7 +146,7 @@ class CaseObs:
 
 def execute(built, runs, ctl, gate_events=0.0, gate_saves=0.0, write_once=True,
             collab_faults=None, extra_kwargs=None, start_gated=False, on_quiescent=None,
-            collect_stuck=True, sequential=False):
+            collect_stuck=True, sequential=False, charts=None):
     """runs: list of (tag, val).  Overlapping by default; sequential=True runs them in order."""
     st = setup_engine()
     obs = CaseObs()
@@ -148,9 +156,13 @@ def execute(built, runs, ctl, gate_events=0.0, gate_saves=0.0, write_once=True,
     rt.set_session(sess)
     ros = [RunObs(t, v) for t, v in runs]
     obs.runs = ros
-    chart = built.chart
+    chart0 = built.chart
+    chart_of = {}
+    for i, ro in enumerate(ros):
+        chart_of[ro.tag] = (charts[i] if charts and charts[i] is not None else chart0)
 
     async def one(ro):
+        chart = chart_of[ro.tag]
         rt.RUN.set(ro.tag)
         kw = {'x': ('IN', ro.tag, ro.val)}
         if extra_kwargs:
